@@ -64,6 +64,46 @@ func probeLaws(p pairArg) (string, string) {
 	return "", ""
 }
 
+type coreArg struct {
+	A [3]uint64 `json:"a"`
+	B [3]uint64 `json:"b"`
+}
+
+func probeCoreLaws(p coreArg) (string, string) {
+	va := sem.Ver{Major: p.A[0], Minor: p.A[1], Patch: p.A[2]}
+	vb := sem.Ver{Major: p.B[0], Minor: p.B[1], Patch: p.B[2], Build: "b"}
+	ab, ba := va.Compare(vb), vb.Compare(va)
+	if ab < -1 || ab > 1 || ab != -ba {
+		return "antisymmetry", fmt.Sprintf("%s Compare %s = %d but reverse = %d", va, vb, ab, ba)
+	}
+	if (ab == 0) != (p.A == p.B) {
+		return "equal_core_and_prerelease_not_zero", fmt.Sprintf("%s Compare %s = %d", va, vb, ab)
+	}
+	l := va.Latest(vb)
+	if l != va && l != vb || ab < 0 && l != vb || ab > 0 && l != va {
+		return "latest_is_lower", fmt.Sprintf("%s Latest %s = %s although Compare = %d", va, vb, l, ab)
+	}
+	if c, err := sem.Compare(va.String(), vb.String()); err != nil || c != ab {
+		return "helper_vs_parsed_values", fmt.Sprintf("Compare(%q,%q) = %d, %v but comparing the values gives %d", va.String(), vb.String(), c, err, ab)
+	}
+	return "", ""
+}
+
+// history of depth 2: a comparison must not depend on which comparison was made before it
+type histArg struct {
+	First  pairArg `json:"first"`
+	Second pairArg `json:"second"`
+}
+
+func probeHist(h histArg) (string, string) {
+	_ = sem.DefaultComparePreRelease(h.First.A, h.First.B)
+	_ = sem.New(3, 1, 4, h.First.A).Compare(sem.New(3, 1, 4, h.First.B))
+	if k, d := probeLaws(h.Second); k != "" {
+		return "after_previous_call:" + k, fmt.Sprintf("after comparing (%q, %q): %s", h.First.A, h.First.B, d)
+	}
+	return "", ""
+}
+
 type helperArg struct {
 	A mc.Bin `json:"a"`
 	B mc.Bin `json:"b"`
@@ -212,6 +252,35 @@ func main() {
 			r.Serial(func(w *mc.W) { w.Outcome("laws") })
 		})
 		r.Sample("laws", pairArg{"a01", "a1"})
+		pC := mc.NewProbe(r, "core_laws", nil, probeCoreLaws)
+		cn := []uint64{0, 1, 5, 1<<63 - 1, 1 << 63, 1<<63 + 5, maxU - 1, maxU}
+		r.Phase(fmt.Sprintf("laws on all ordered pairs of the %d^3 cores over {0,1,5,2^63-1,2^63,2^63+5,2^64-2,2^64-1}", len(cn)), "complete", func() {
+			n := int64(len(cn) * len(cn) * len(cn))
+			core := func(i int64) [3]uint64 { return [3]uint64{cn[i%8], cn[i/8%8], cn[i/64]} }
+			r.Parallel(n, 1, func(w *mc.W, i int64) {
+				for j := int64(0); j < n; j++ {
+					w.Point()
+					w.NonTrivial()
+					pC.Do(w, coreArg{core(i), core(j)})
+				}
+			})
+		})
+		pHi := mc.NewProbe(r, "history2", nil, probeHist)
+		r.Phase("serial: all histories of two comparisons over 14 pre-releases (the second comparison is judged by the laws)", "complete for depth 2 over the listed pre-releases", func() {
+			hs := []string{"", "1", "2", "3", "2.1", "1.3", "alpha", "beta", "rc", "beta.alpha", "alpha.rc", "a.b.c", "a.b", "b.c"}
+			r.Serial(func(w *mc.W) {
+				for _, a := range hs {
+					for _, b := range hs {
+						for _, c := range hs {
+							for _, d := range hs {
+								w.Point()
+								pHi.Do(w, histArg{pairArg{a, b}, pairArg{c, d}})
+							}
+						}
+					}
+				}
+			})
+		})
 		var texts []string
 		for _, pre := range append([]string{"", "a", "a1", "a01", "1", "0", "01", "1.a", "a.1", "rc9", "rc10", "-", "a..b", "é"}, oracle.PreReleases("01a-.", 2)...) {
 			for _, core := range []string{"1.0.0", "v1.0.0", "0.0.1", "v2.0.0"} {
